@@ -50,9 +50,9 @@ func c17Max(tier string) int {
 }
 
 // slot kinds: own (own-line: // or /* */ or directive), eol (end of line: // or /* */), mid (inside an expression: /* */ only)
-var c17SlotOrder = []string{"header", "build", "pkgdoc", "pkgtrail", "free1", "d1doc", "d1open", "d1in", "d1own", "d1trail", "d1trail2", "free2", "d2doc", "d2own", "d2eol", "d2mid", "d2trail", "d2trail2", "free3", "d3doc", "d3trail", "eof"}
+var c17SlotOrder = []string{"header", "build", "pkgdoc", "pkgtrail", "pkgtrail2", "free1", "d1doc", "d1open", "d1in", "d1own", "d1trail", "d1trail2", "free2", "d2doc", "d2own", "d2eol", "d2mid", "d2trail", "d2trail2", "free3", "d3doc", "d3trail", "eof"}
 
-var c17SlotKind = map[string]string{"header": "own", "build": "build", "pkgdoc": "own", "pkgtrail": "eolpkg", "free1": "own", "d1doc": "own", "d1open": "eol", "d1in": "eol", "d1own": "own",
+var c17SlotKind = map[string]string{"header": "own", "build": "build", "pkgdoc": "own", "pkgtrail": "eolpkg", "pkgtrail2": "eol2", "free1": "own", "d1doc": "own", "d1open": "eol", "d1in": "eol", "d1own": "own",
 	"d1trail": "eol", "d1trail2": "eol2", "d2trail2": "eol2", "free2": "own", "d2doc": "own", "d2own": "own", "d2eol": "eol", "d2mid": "mid", "d2trail": "eol", "free3": "own", "d3doc": "own", "d3trail": "eol", "eof": "own"}
 
 func c17Render(slots map[string]string, sites string) string {
@@ -60,6 +60,8 @@ func c17Render(slots map[string]string, sites string) string {
 	sites = strings.TrimSuffix(sites, "/funcs")
 	siteFirst := strings.HasSuffix(sites, "/sitefirst") // the declaration containing the site is the first of the file
 	sites = strings.TrimSuffix(sites, "/sitefirst")
+	siteLast := strings.HasSuffix(sites, "/sitelast") // ... the last of the file
+	sites = strings.TrimSuffix(sites, "/sitelast")
 	own := func(s, indent string) string {
 		if c, ok := slots[s]; ok {
 			return indent + c + "\n"
@@ -110,9 +112,12 @@ func c17Render(slots map[string]string, sites string) string {
 	b.WriteString("func site() {\n\tpre()\n" + own("d2own", "\t") + "\t" + call + eol("d2eol") + "\n\tmid(" + mid + "2)\n}" + eol("d2trail") + "\n\n")
 	blockD2 := b.String()
 	b.Reset()
-	if siteFirst {
+	switch {
+	case siteFirst:
 		b.WriteString(head + blockD2 + blockD1)
-	} else {
+	case siteLast:
+		b.WriteString(head + blockD1)
+	default:
 		b.WriteString(head + blockD1 + blockD2)
 	}
 	b.WriteString(free("free3"))
@@ -128,6 +133,9 @@ func c17Render(slots map[string]string, sites string) string {
 	}
 	if sites == "d4" {
 		b.WriteString("\nfunc tail() {\n\tfoo(4)\n}\n")
+	}
+	if siteLast {
+		b.WriteString("\n" + strings.TrimSuffix(blockD2, "\n"))
 	}
 	if c, ok := slots["eof"]; ok {
 		b.WriteString("\n" + c + "\n")
@@ -194,13 +202,13 @@ func c17Gen(tier string, emit func(any)) {
 	var rec func(start int, slots map[string]string)
 	emitFor := func(slots map[string]string) {
 		for _, id := range ids {
-			for _, sites := range []string{"d2", "d2+d3", "d4", "d2/funcs", "d4/funcs", "d2/sitefirst", "d2+d3/sitefirst", "d2/sitefirst/funcs"} {
+			for _, sites := range []string{"d2", "d2+d3", "d4", "d2/funcs", "d4/funcs", "d2/sitefirst", "d2+d3/sitefirst", "d2/sitefirst/funcs", "d2/sitelast", "d2/sitelast/funcs"} {
 				cp := map[string]string{}
 				for k, v := range slots {
 					cp[k] = v
 				}
 				emit(&C17Case{PatchID: id, Changes: patches[id], Slots: cp, Sites: sites, File: c17Render(cp, sites)})
-				if tier == "thorough" || len(cp) <= 1 || sites == "d2" || sites == "d2+d3" || sites == "d4/funcs" || sites == "d2/sitefirst" {
+				if tier == "thorough" || len(cp) <= 1 || sites == "d2" || sites == "d2+d3" || sites == "d4/funcs" || sites == "d2/sitefirst" || sites == "d2/sitelast" {
 					// quick: two-comment placements go through the command line on four of the eight site configurations
 					emit(&C17Case{PatchID: id, Changes: patches[id], Slots: cp, Sites: sites, File: c17Render(cp, sites), Mode: "cli"})
 				}
@@ -242,11 +250,19 @@ func c17Analyse(src []byte) (header []string, decls []declComments, all []string
 	}
 	line := func(p token.Pos) int { return fset.Position(p).Line }
 	pkgLine := line(f.Package)
+	contLine := -1 // a comment on the package line may continue on the lines directly below it
 	for _, cg := range f.Comments {
 		for _, c := range cg.List {
 			all = append(all, c.Text)
-			if c.Pos() < f.Package || line(c.Pos()) == pkgLine {
+			switch {
+			case c.Pos() < f.Package || line(c.Pos()) == pkgLine:
 				header = append(header, c.Text)
+				if line(c.Pos()) == pkgLine {
+					contLine = line(c.End()) + 1
+				}
+			case contLine >= 0 && line(c.Pos()) == contLine && (len(f.Decls) == 0 || c.End() < f.Decls[0].Pos() && line(f.Decls[0].Pos()) > line(c.End())+1):
+				header = append(header, c.Text)
+				contLine = line(c.End()) + 1
 			}
 		}
 	}
@@ -344,7 +360,10 @@ func c17Run(env *core.Env, ci any) core.Outcome {
 			return bad("comment-invented-or-duplicated", "comment %q occurs more often in the output than in the input", t)
 		}
 	}
-	if strings.Join(inH, "\n") != strings.Join(outH, "\n") {
+	// the header comments are the first comments of the file: the output must begin with them, in order (a comment that
+	// continued the package line may end up directly above the first declaration when that declaration is rewritten)
+	prefixOK := len(outAll) >= len(inH) && strings.Join(outAll[:len(inH)], "\n") == strings.Join(inH, "\n")
+	if strings.Join(inH, "\n") != strings.Join(outH, "\n") && !prefixOK {
 		strip := func(l []string) string {
 			var o []string
 			for _, t := range l {
